@@ -160,7 +160,7 @@ func runProperty(opt options) int {
 				if cases[i].MaxWallS == 0 {
 					cases[i].MaxWallS = 90
 					if opt.tier == "thorough" {
-						cases[i].MaxWallS = 900
+						cases[i].MaxWallS = 360
 					}
 				}
 				r := runCaseSafe(prog, sol, cases[i])
